@@ -53,7 +53,7 @@ def unit_path(name):
     return os.path.join(UNITS, name + '.rs')
 
 
-def list_units():
+def _unit_headers():
     res = {}
     for fn in sorted(os.listdir(UNITS)):
         if not fn.endswith('.rs'):
@@ -62,10 +62,20 @@ def list_units():
             for ln in f:
                 if ln.startswith('//@unit'):
                     w = ln.split()
-                    o = extract.parse_opts(w[2:])
-                    res[w[1]] = [p for p in o.get('props', '').split(',') if p]
+                    res[w[1]] = extract.parse_opts(w[2:])
                     break
     return res
+
+
+def list_units():
+    """primary units only: name -> property ids"""
+    return {u: [p for p in o.get('props', '').split(',') if p] for u, o in _unit_headers().items() if not o.get('alt_of')}
+
+
+def alternatives_of(unit):
+    """Alternative proof units of `unit`: same property contract, different trusted linking of the mechanism.
+    The family holds if ANY member verifies; it is violated if none verifies and one fails definitely."""
+    return [u for u, o in _unit_headers().items() if o.get('alt_of') == unit]
 
 
 class FnInfo:
@@ -552,7 +562,7 @@ def run_unit(name, tier='quick', keep=False, rebaseline=False):
         # baseline
         bpath = os.path.join(BASELINE, name + '.json')
         if rebaseline:
-            if failures:
+            if failures and not unit.get('opts', {}).get('alt_of'):
                 res['reason'] = 'cannot rebaseline: unit has failing obligations'
                 return res
             os.makedirs(BASELINE, exist_ok=True)
